@@ -708,13 +708,18 @@ def _xr_reproject_ds(
             dv, how=dst_geobox, resampling=resampling, dst_nodata=dst_nodata, **kw
         )
 
-    out = src.map(_maybe_reproject)
+    # Not using ``src.map(..)``: depending on xarray version it either copies
+    # attributes of the source variables back over the computed ones (stale
+    # crs/grid_mapping/nodata) or drops attributes altogether.
+    out = xarray.Dataset(
+        {k: _maybe_reproject(dv) for k, dv in src.data_vars.items()},
+    )
 
     # dataset level: drop stale CRS coordinates/attributes of the source
     # and install coordinates of the destination geobox
     stale = [str(c.name) for c in _locate_crs_coords(src)]
     out = out.drop_vars(stale, errors="ignore").assign_coords(xr_coords(dst_geobox))
-    out.attrs = {k: v for k, v in out.attrs.items() if k not in SPATIAL_ATTRIBUTES}
+    out.attrs = {k: v for k, v in src.attrs.items() if k not in SPATIAL_ATTRIBUTES}
     return out
 
 
